@@ -19,7 +19,7 @@ REPO = os.environ.get('VERIF_REPO', '/repo')
 def run_property(pid, tier, seed):
     t0 = time.time()
     spec = PROPERTIES[pid]
-    configs = ['default'] if tier == 'quick' else spec.get('thorough_configs', ['default', 'dev', 'release'])
+    configs = ['default'] if tier == 'quick' else spec.get('thorough_configs', ['default', 'dev', 'release', 'nosync'])
     all_results = []
     cfg_info = []
     fixtures_results = None
@@ -27,9 +27,11 @@ def run_property(pid, tier, seed):
         facts, dt = extract.extract(REPO, 'mini_moka', cfg)
         ctx = Context(facts, tier=tier)
         cfg_info.append({'config': cfg, 'bodies': len(ctx.prog.bodies), 'extract_s': round(dt, 2), 'cfg': facts['cfg']})
-        rules = spec['rules'] if cfg in ('default', 'dev', 'release') else spec.get('rules_' + cfg, spec['rules'])
+        rules = spec['rules']
         for rule in rules:
             if cfg != 'default' and (getattr(rule, 'default_only', False) or rule.__module__.endswith('rules_type')):
+                continue
+            if cfg in getattr(rule, 'skip_configs', ()):
                 continue
             res = rule(ctx)
             res.config = cfg
